@@ -1,7 +1,6 @@
 import VermouthProofs.C11_Stages
 import VermouthProofs.C11_StagesC10
 import VermouthProofs.C11_StagesC18
-import VermouthProofs.C11_StagesC01
 import VermouthProps.C15
 /-!
 # C11 — stage-level PRESENTATION invariance, proved on the models of the other properties
@@ -16,7 +15,7 @@ that model, for every input.  Models and their own theorems are imported read-on
 | atoms listed in another order         | bond guessing (C10.run)          | `bond_guessing_order_invariant`, `bond_guessing_any_permutation` |
 | rigid motion                          | bond guessing (C10.run)          | `bond_guessing_rigid_invariant` |
 | hydrogens renamed / atoms permuted    | repair_graph (C04.repairResidue) | `repair_names_presentation_free`, `repair_two_presentations` |
-| atom numbering of the reader          | do_mapping (C01.assemble)        | `mapping_rekey_equivariant`, `mapping_table_rekey_invariant`, `mapping_table_monotone_renumbering`, `mapping_nonmonotone_changes_block_order` |
+| atom numbering of the reader          | do_mapping (C01.assemble)        | (in `VermouthProps/C11_StagesC01.lean`) `mapping_rekey_equivariant`, `mapping_table_rekey_invariant`, `mapping_table_monotone_renumbering`, `mapping_nonmonotone_changes_block_order` |
 | rigid motion / node numbering         | Go model (C18.selectContacts)    | `go_contacts_rigid_invariant`, `go_pipeline_rigid_equivariant`, `go_contacts_rekey_equivariant`, `go_pipeline_rekey_outcome`, `go_rekey_nonmonotone_witness` |
 | rigid motion, composed stages         | C09.beadPos then C15.run         | `comp_invariant`, `comp_equivariant`, `bead_position_rigid_equivariant`, `placement_then_network_rigid_invariant` |
 
@@ -304,69 +303,5 @@ example : C18.Example.atoms ≠ [] ∧ ("CA" : String) ≠ Ex18.P.backbone
     ∧ (∀ x ∈ C18.Example.atoms.map (·.key), ∀ y ∈ C18.Example.atoms.map (·.key), x < y → Ex18.ρ x < Ex18.ρ y)
     ∧ (∀ e ∈ Ex18.edges, e.1 ∈ C18.Example.atoms.map (·.key) ∧ e.2 ∈ C18.Example.atoms.map (·.key)) := by
   decide
-
-/-! ## 5. numbering of the input atoms: do_mapping (C01)
-
-The keys of the input atoms are assigned by the PDB reader in file order; they are presentation.  `C01.assemble`
-reads them through (i) equality (dictionaries, overlap test, references, edges) and (ii) the ORDER of the lowest
-atom keys of the matches (`sorted(block_matches, key=min key)`, which fixes the order of the blocks, hence
-particle numbers, resids and charge groups).  `S01.support m ps` = every key the input mentions (atom keys, both
-ends of the edges, atoms and reference targets of the matches). -/
-
-/-- **mapping_rekey_equivariant.**  For every renumbering `ρ` that is injective on the keys the input mentions and
-keeps the order of the lowest atom keys of the matches, `do_mapping` on the renumbered input gives the
-renumbered result: same particles, names, resids, charge groups, `_old_resid`, weights, bonds, interactions,
-warnings, same error outcome; the constituent atoms of every particle are the renumbered ones. -/
-theorem mapping_rekey_equivariant (ρ : Int → Int) (m : C01.MolIn) (ps : List C01.Placement)
-    (hinj : ∀ x ∈ S01.support m ps, ∀ y ∈ S01.support m ps, ρ x = ρ y → x = y)
-    (hord : ∀ p ∈ ps, ∀ q ∈ ps,
-      (C01.minKey (Placement.rekey ρ p) ≤ C01.minKey (Placement.rekey ρ q) ↔ C01.minKey p ≤ C01.minKey q)) :
-    C01.assemble (MolIn.rekey ρ m) (ps.map (Placement.rekey ρ)) = (C01.assemble m ps).map (Result.rekey ρ) :=
-  c01_assemble_rekey_equivariant ρ m ps hinj hord
-
-/-- **mapping_table_rekey_invariant** (the clause of C11).  Under the same hypotheses the particle table (key,
-name, resid, charge group, `_old_resid`, weights in order), the bonds, the interactions and the warnings - or
-the error - are THE SAME. -/
-theorem mapping_table_rekey_invariant (ρ : Int → Int) (m : C01.MolIn) (ps : List C01.Placement)
-    (hinj : ∀ x ∈ S01.support m ps, ∀ y ∈ S01.support m ps, ρ x = ρ y → x = y)
-    (hord : ∀ p ∈ ps, ∀ q ∈ ps,
-      (C01.minKey (Placement.rekey ρ p) ≤ C01.minKey (Placement.rekey ρ q) ↔ C01.minKey p ≤ C01.minKey q)) :
-    (C01.assemble (MolIn.rekey ρ m) (ps.map (Placement.rekey ρ))).map Result.table
-      = (C01.assemble m ps).map Result.table :=
-  c01_table_rekey_invariant ρ m ps hinj hord
-
-/-- **mapping_table_monotone_renumbering.**  In particular for every renumbering that is strictly increasing on the
-keys the input mentions (what the reader does when atoms are added or removed elsewhere in the file, or numbering
-starts elsewhere); nothing is required outside those keys. -/
-theorem mapping_table_monotone_renumbering (ρ : Int → Int) (m : C01.MolIn) (ps : List C01.Placement)
-    (hmono : ∀ x ∈ S01.support m ps, ∀ y ∈ S01.support m ps, x < y → ρ x < ρ y) :
-    C01.assemble (MolIn.rekey ρ m) (ps.map (Placement.rekey ρ)) = (C01.assemble m ps).map (Result.rekey ρ)
-    ∧ (C01.assemble (MolIn.rekey ρ m) (ps.map (Placement.rekey ρ))).map Result.table
-        = (C01.assemble m ps).map Result.table :=
-  ⟨c01_assemble_rekey_equivariant_increasing ρ m ps hmono, c01_table_rekey_invariant_increasing ρ m ps hmono⟩
-
-/-- a renumbering that is strictly increasing inside the atoms of a match moves the lowest key with it -/
-theorem mapping_lowest_key_rekey (ρ : Int → Int) (p : C01.Placement) (hne : p.atoms ≠ [])
-    (hmono : ∀ x ∈ p.atoms, ∀ y ∈ p.atoms, x < y → ρ x < ρ y) :
-    C01.minKey (Placement.rekey ρ p) = ρ (C01.minKey p) :=
-  c01_minKey_rekey ρ p hne hmono
-
-/-- **mapping_nonmonotone_changes_block_order.**  The order hypothesis cannot be dropped: exchanging the keys of two
-residues (an injective renumbering of the same molecule with the same matches) exchanges the two blocks in the
-particle table.  This is why the numbering of the PDB reader (file order of the RESIDUES) is not presentation,
-while the order of the atoms inside a residue is. -/
-theorem mapping_nonmonotone_changes_block_order :
-    (∀ x y, Ex01.swap x = Ex01.swap y → x = y)
-    ∧ (C01.assemble Ex01.mol [Ex01.pA, Ex01.pB]).map (fun r => (Result.table r).beads)
-        = .ok [⟨1, some "A", some 1, some 1, some 1, [1, 1]⟩, ⟨2, some "B", some 2, some 2, some 2, [1, 1]⟩]
-    ∧ (C01.assemble (MolIn.rekey Ex01.swap Ex01.mol) ([Ex01.pA, Ex01.pB].map (Placement.rekey Ex01.swap))).map
-          (fun r => (Result.table r).beads)
-        = .ok [⟨1, some "B", some 1, some 1, some 2, [1, 1]⟩, ⟨2, some "A", some 2, some 2, some 1, [1, 1]⟩] := by
-  obtain ⟨h1, _, h3, h4, _⟩ := c01_nonmonotone_changes_block_order
-  exact ⟨h1, h3, h4⟩
-
-example : ∀ x ∈ S01.support C01.exMol [C01.exP2, C01.exP1], ∀ y ∈ S01.support C01.exMol [C01.exP2, C01.exP1],
-    x < y → Ex01.ρK x < Ex01.ρK y := by decide
-example : ¬ (∀ x y, Ex01.ρK x = Ex01.ρK y → x = y) := fun h => absurd (h 0 1 (by decide)) (by decide)
 
 end C11
